@@ -2,7 +2,8 @@
 from dataclasses import dataclass, field
 
 from sim.pool.base import StableHashMeta
-from typing import Optional
+from decimal import Decimal
+from typing import Optional, Union
 
 __NAMESPACE__ = "urn:x"
 
@@ -67,3 +68,37 @@ class Kennel(metaclass=StableHashMeta):
     star: Optional[Dog] = field(default=None, metadata={"type": "Element"})
     animal: list[Dog] = field(default_factory=list, metadata={"type": "Element"})
     thing: Optional[Cat] = field(default=None, metadata={"type": "Element"})
+
+
+@dataclass
+class Pets(metaclass=StableHashMeta):
+    """Compound field whose choices are a base class and its subclasses: the exact type must win."""
+
+    class Meta:
+        name = "pets"
+        namespace = "urn:x"
+
+    items: list[Union[Animal, Dog, Cat]] = field(
+        default_factory=list,
+        metadata={
+            "type": "Elements",
+            "choices": (
+                {"name": "animal", "type": Animal},
+                {"name": "dog", "type": Dog},
+                {"name": "cat", "type": Cat},
+            ),
+        },
+    )
+
+
+class Money(Decimal):
+    """A subclass of a type the converter knows: converted through the parent's converter."""
+
+
+@dataclass
+class Till(metaclass=StableHashMeta):
+    class Meta:
+        name = "till"
+        namespace = "urn:x"
+
+    amount: Optional[Money] = field(default=None, metadata={"type": "Element"})
